@@ -187,7 +187,7 @@ Lemma set_remove_all_fold l vs : set_remove_all zero rank l vs = fold_out (set_r
 Proof. revert l. induction vs as [|v t IH]; intros l; cbn; [reflexivity|]. destruct (set_remove zero rank l v); cbn; auto. Qed.
 
 Definition each_env cls n (sv : val A) l it : env A :=
-  [(1%positive, set_val cls n l); (2%positive, sv); (3%positive, GenIter.it_rep A VNil it)].
+  [(1%positive, set_val cls n l); (2%positive, sv); (3%positive, GenRep.it_rep A VNil it)].
 
 Section Each.
 Variables (cls n sv : val A) (cond : option expr) (body : list stmt) (m : ident) (stepf : list A -> A -> out (list A)).
